@@ -83,7 +83,8 @@ void hook(int point, const void* object, std::size_t index)
 // progress watchdog: work outstanding and no schedule-point event / task for a long time
 constexpr int watchdog_seconds = 20;
 
-void watchdog()
+// reads the trace while the (hung) threads may still own slots: diagnostic only, not instrumented
+__attribute__((no_sanitize("thread"))) void watchdog()
 {
     uint64_t last  = g_progress.load();
     int      quiet = 0;
